@@ -134,6 +134,19 @@ def case_history(case):
                                               "got": sel, "want": want})
                     if isinstance(sel, list) and sel != mod:
                         res["disagree"].append({"what": f"paths: selection {form}", "step": step, "real": sel, "model": mod})
+            # an identity that no member of the group carries (never added, or dropped by a replacement) selects nothing
+            present = {i for i, _ in lst if i}
+            for absent in ["nosuch", "zz9"] + [i for g2, l2 in current.items() if g2 != gg for i, _ in l2 if i and i not in present][:2]:
+                if absent in present:
+                    continue
+                for form in (f"{gg}#{absent}", f"${gg}.csvpaths.{absent}"):
+                    try:
+                        sel = pm.get_named_paths(form)
+                    except Exception as e:  # noqa: BLE001
+                        sel = f"raised {e.__class__.__name__}"
+                    if isinstance(sel, list) and sel:
+                        res["oracle"].append({"what": f"selection {form}: no member has that identity, yet csvpaths were returned",
+                                              "step": step, "got": sel})
         if res["oracle"] or res["disagree"]:
             break
     res["nontrivial"] = sum(1 for o in case["ops"] if o["op"] == "add") >= 2
